@@ -26,7 +26,7 @@ RULE = ('states = interleavings of {load, load(force), enforce, edit (toggle '
 ASSUMPTIONS = ['same canonicalisation argument as C10',
                'fresh comparison enforcers are the implementation itself']
 
-ROLES = ['dp', 'dn', 'dold', 'cn', 'cold', 'f0', 'fold', 'fd']
+ROLES = ['dp', 'dn', 'dold', 'cn', 'cn2', 'cold', 'f0', 'fold', 'fd']
 NAMES = ['svc:plain', 'svc:new', 'svc:old', 'svc:chg']
 FILES = {
     'x0': {'svc:plain': 'role:f0'},
@@ -61,7 +61,7 @@ def shared_defaults(P):
                       deprecated_rule=P.DeprecatedRule(
                           'svc:old', 'role:dold', deprecated_reason='r',
                           deprecated_since='s')),
-        P.RuleDefault('svc:chg', 'role:cn',
+        P.RuleDefault('svc:chg', 'role:cn or role:cn2',
                       deprecated_rule=P.DeprecatedRule(
                           'svc:chg', 'role:cold', deprecated_reason='r',
                           deprecated_since='s')),
